@@ -10,7 +10,7 @@ LEVEL = "exploration"
 RULE = ("seeded sparse layouts (0..100 data segments of 1 B .. 200 KB separated by holes >= 1 MiB; leading, trailing, interleaved, "
         "entirely empty; aligned and unaligned to 4 KiB; written with and without fsync) x block sizes below/above the segment sizes "
         "(4 KB .. 16 MB, --no-progress) x workers 1..16 x driver x fresh / existing fully-allocated destination x {ext4 (FIEMAP), "
-        "tmpfs (SEEK_DATA only)}; each layout is also copied with every hole scaled x8. Oracle on exit 0 (after the harness fsyncs "
+        "tmpfs (SEEK_DATA only)} x source on the same or on the other filesystem (then the user-space copy path runs); each layout is also copied with every hole scaled x8. Oracle on exit 0 (after the harness fsyncs "
         "the destination): allocated bytes <= source's data (SEEK_DATA segments, rounded) + 8 KiB per segment + 64 KiB; no data "
         "segment of the destination lies wholly inside a source hole >= 1 MiB; allocation of the x8 copy within the same allowance "
         "of the x1 copy; bytes identical. distinct_nontrivial = distinct (driver, fs, block class vs segment size, segment-count "
@@ -72,7 +72,7 @@ def gen_cases(tier, seed):
         trailing = r.choice(["data", "hole", "hole"])
         yield {"driver": driver, "lead": lead, "lens": lens, "trailing": trailing, "nseg": nseg, "block": blocks[i % len(blocks)],
                "workers": r.choice([1, 2, 4, 16]), "prior": r.choice(["absent", "absent", "full"]), "sync": r.random() < 0.6,
-               "fs": "tmpfs" if r.random() < 0.35 else "ext4", "seed": r.randrange(1, 1 << 30),
+               "fs": "tmpfs" if r.random() < 0.35 else "ext4", "seed": r.randrange(1, 1 << 30), "xdev": r.random() < 0.25,
                "extra": r.choice([[], [], [], ["--fsync"], ["--no-perms", "--no-timestamps"], ["--reflink", "never"], ["--backup", "numbered"], ["--ownership"], ["-L"]])}
 
 
@@ -92,8 +92,14 @@ def copy_once(sb, case, scale, res):
         core.force_rmtree(os.path.join(b(root), n))
     size, segs = build(case["lead"], case["lens"], case["trailing"], scale)
     e = {"p": "s", "k": "f", "size": size, "segs": segs, "seed": case["seed"], "sync": case["sync"]}
-    tree.materialize(root, [e])
-    srcp, dstp = os.path.join(b(root), b"s"), os.path.join(b(root), b"d")
+    sroot = root
+    if case.get("xdev"):
+        # the source lives on the other filesystem: copy_file_range answers EXDEV and the user-space copy path runs
+        sroot = sb.other
+        for n in os.listdir(b(sroot)):
+            core.force_rmtree(os.path.join(b(sroot), n))
+    tree.materialize(sroot, [e])
+    srcp, dstp = os.path.join(b(sroot), b"s"), os.path.join(b(root), b"d")
     if case["prior"] == "full":
         # fully allocated previous destination (bounded so that the test stays cheap)
         with open(dstp, "wb") as f:
@@ -103,7 +109,7 @@ def copy_once(sb, case, scale, res):
                 f.write(blk[:min(len(blk), left)])
                 left -= len(blk)
             os.fsync(f.fileno())
-    args = ["--driver", case["driver"], "-w", str(case["workers"])] + (["--no-progress"] if case["block"] == "np" else ["--block-size", case["block"]]) + case.get("extra", []) + ["s", "d"]
+    args = ["--driver", case["driver"], "-w", str(case["workers"])] + (["--no-progress"] if case["block"] == "np" else ["--block-size", case["block"]]) + case.get("extra", []) + [u(srcp), "d"]
     run = core.run_plain(core.xcp_argv(args), root, timeout=300)
     if run.verdict != "exited":
         res["inconc"].append("run-" + run.verdict)
@@ -127,9 +133,9 @@ def run_case(case):
         r1 = copy_once(sb, case, 1, res)
         if r1 is None:
             return res
-        tag = "driver=%s fs=%s block=%s workers=%d prior=%s segments=%d size=%d" % (case["driver"], case["fs"], case["block"], case["workers"], case["prior"], case["nseg"], r1["size"])
+        tag = ("source-on-other-fs " if case.get("xdev") else "") + "driver=%s fs=%s block=%s workers=%d prior=%s segments=%d size=%d" % (case["driver"], case["fs"], case["block"], case["workers"], case["prior"], case["nseg"], r1["size"])
         allowance = 8192 * max(1, len(r1["smap"])) + 65536
-        sig0 = "%s:%s" % (case["driver"], case["fs"])
+        sig0 = "%s:%s%s" % (case["driver"], case["fs"], ":xdev" if case.get("xdev") else "")
         if not r1["same"]:
             res["viol"].append({"sig": sig0 + ":bytes", "what": "destination bytes differ from source; " + tag})
         bound = max(r1["src_data"], r1["src_alloc"]) + allowance
@@ -158,7 +164,7 @@ def run_case(case):
             res["counters"]["scaled-pairs"] = 1
         segsz = max([l[0] for l in case["lens"] if l != "huge"] or [0])
         bsv = {"4096": 4096, "64KB": 65536, "1MB": 1000000, "16MB": 16000000, "np": 1 << 62}[case["block"]]
-        res["evals"].append({"key": [case["driver"], case["fs"], "blk<seg" if bsv < segsz else "blk>=seg", "n=%s" % (case["nseg"] if case["nseg"] < 4 else "4-32" if case["nseg"] <= 32 else ">32"),
+        res["evals"].append({"key": [case["driver"], case["fs"] + ("<-other" if case.get("xdev") else ""), "blk<seg" if bsv < segsz else "blk>=seg", "n=%s" % (case["nseg"] if case["nseg"] < 4 else "4-32" if case["nseg"] <= 32 else ">32"),
                                      case["lead"], case["trailing"], case["prior"]],
                              "sample": {"args": r1["args"], "fs": case["fs"], "apparent_size": r1["size"], "segments": r1["segs"][:6], "n_segments": len(r1["segs"]),
                                         "src_alloc": r1["src_alloc"], "dst_alloc": r1["dst_alloc"], "dst_alloc_holes_x8": r8["dst_alloc"] if r8 else None}})
